@@ -16,6 +16,7 @@ import Driver.Backend
 import Driver.Libpass
 import Driver.Verify
 import Driver.TotpSerial
+import Driver.Shapes
 /-
 Line protocol driver: `<suite> <op> <args…>` per input line, one result line out.
 Compiled (`lean_exe modeldrv`); nothing imported here touches Mathlib.
@@ -40,6 +41,7 @@ def dispatch (line : String) : String :=
   | "lp" :: rest => Driver.Libpass.handle rest
   | "vfy" :: rest => Driver.Verify.handle rest
   | "tser" :: rest => Driver.TotpSerial.handle rest
+  | "shape" :: rest => Driver.Shapes.handle rest
   | _ => Driver.bad
 
 partial def loop (h : IO.FS.Stream) (out : IO.FS.Stream) : IO Unit := do
